@@ -3,6 +3,8 @@
 //! (impl -> spec), optionally from replay records produced by TLC (spec -> impl) on stdin.
 mod dym;
 mod kinds;
+mod ov;
+mod scalar;
 mod ptr;
 mod util;
 
@@ -13,6 +15,7 @@ fn main() {
         Some("ptr") => ptr::main(rest),
         Some("kinds") => kinds::main(rest),
         Some("dym") => dym::main(rest),
+        Some("scalar") => scalar::main(rest),
         _ => {
             eprintln!("usage: dh <ptr|kinds|dym|scalar|bridge|core> ...");
             std::process::exit(2);
